@@ -574,32 +574,31 @@ def run_tabular(res, run, mod, case):
     boundaries = {"T": 0, "U": 0}
     episode = []
     fresh = False
-    n_act_since_step = 0
+    last_call = None
     for e in tr.events:
         k = e["k"]
         if k == "reset":
             cur = e["obs"]
             fresh = True
         elif k == "step":
+            # the latest policy evaluation before a step is the one the action
+            # comes from (SARSA may carry the action evaluated for the
+            # successor); it must be conditioned on the current observation
+            if last_call is None or int(last_call["obs"]) != int(e["prev"]):
+                res.violation(
+                    f"C01/acting_on_stale_observation/{algo}",
+                    f"step in state {e['prev']}: the latest policy evaluation was "
+                    f"conditioned on state "
+                    f"{None if last_call is None else int(last_call['obs'])}")
+                return res
+            res.see("acting_observations_checked")
             last = e
             cur = e["obs"]
             episode.append(e)
-            n_act_since_step = 0
             boundaries["T"] += e["terminated"]
             boundaries["U"] += e["truncated"]
         elif k == "call" and e["name"] == "epsilon_greedy_policy":
-            n_act_since_step += 1
-            # SARSA evaluates the policy a second time on the successor (its
-            # 'next action'): after a step the first call is that one, the
-            # acting call is the second (or the very first of the run)
-            if algo == "sarsa" and last is not None and n_act_since_step == 1:
-                continue
-            if cur is None or int(e["obs"]) != int(cur):
-                res.violation(f"C01/acting_on_stale_observation/{algo}",
-                              f"policy conditioned on state {int(e['obs'])}, "
-                              f"environment is in state {cur}")
-                return res
-            res.see("acting_observations_checked")
+            last_call = e
         elif k == "update" and not e["planning"]:
             a = e["args"]
             if algo == "monte_carlo":
